@@ -1,14 +1,14 @@
 (* C09 - automatic reconnection with exponential back-off; a user disconnect is final.
    Only statements, each closed by [exact]; model Link/Backoff.v (small-step machine of loop_forever driven
    by a script of per-attempt outcomes, one application action disconnect()/stop at a chosen callback or
-   sleep chunk), proofs Link/Backoff{Proofs,U,Delays,Waits,Final,Retries,RetriesThm,Witness}.v, tie to the
+   sleep chunk), proofs Link/Backoff{Proofs,U,Delays,Waits,Final,Gaps,Retries,RetriesThm,Witness}.v, tie to the
    source Link/TimingBridge.v (generated delay update) + harness/c09.py (the real loop_forever run on the
    same scripts under a virtual clock). run_script cfg t0 script = (events, (final program point, state)).
    An accepted connection can be lost in five ways (EOF, recv error, broker silent = keepalive expiry in
    _check_keepalive, write error at the PINGREQ, server DISCONNECT on MQTT 5): the delay is reset at the accepting
    CONNACK, so every kind of later loss starts again from min_delay (Example C09_reset_after_silent_loss). *)
 From PahoV Require Import Base.Prelude Link.Backoff Link.BackoffProofs Link.BackoffDelays Link.BackoffWaits
-  Link.BackoffFinal Link.BackoffRetries Link.BackoffRetriesThm Link.BackoffWitness Link.TimingBridge Gen.GenTiming.
+  Link.BackoffFinal Link.BackoffGaps Link.BackoffRetries Link.BackoffRetriesThm Link.BackoffWitness Link.TimingBridge Gen.GenTiming.
 
 (* ---- the delay update of _reconnect_wait (regenerated from the source on every run) is the model's *)
 Theorem C09_source_delay_update : forall cfg d,
@@ -39,14 +39,20 @@ Print Assumptions C09_delays.
 
 (* literal statement: the gap between a failure/loss noticed at tf and the next (non-immediate) attempt is
    min (min_delay * 2^i) max_delay, i = number of such retries since the last accepted CONNACK; the immediate
-   downgrade attempt happens at the time of the CONNACK rc 1 and is not counted.
+   downgrade attempt happens at the time of the CONNACK rc 1 and is not counted.  In particular a lost connection is
+   never retried sooner than min_delay.
    It was FALSE before the /repo fixes 6a826ba+8319104 (first-connection retry waited twice) - the old witness
-   now passes (Link/BackoffWitness.first_retry_run).  For the repaired code it is machine-checked on the
-   exhaustive small scope below and validated by the correspondence runs; the general proof of the timing
-   link (failure -> exactly one full wait -> retry) is not done: C09_delays above covers the delay VALUES for
-   all runs, this one adds WHEN the retry happens. *)
-Definition C09_delays_literal : Prop := forall cfg t0 script, 1 <= c_min cfg <= c_max cfg ->
+   now passes (Link/BackoffWitness.first_retry_run).  For the repaired code it holds for EVERY configuration
+   (retry_first_connection, reconnect_on_failure, keepalive, protocol version), every script, every start time and
+   every application action at any callback or sleep chunk: Link/BackoffGaps.v carries a three-phase invariant
+   (quiet / failed at tf = now / exactly one full wait slept) along the machine, side by side with the finality
+   invariant of C09_final. *)
+Theorem C09_delays_literal : forall cfg t0 script, 1 <= c_min cfg <= c_max cfg ->
   gaps_ok (c_min cfg) (c_max cfg) (fst (run_script cfg t0 script)) = true.
+Proof. exact gaps_all_runs. Qed.
+Print Assumptions C09_delays_literal.
+
+(* the same statement evaluated on an exhaustive small scope (kept as a cross-check of the checker itself) *)
 Theorem C09_delays_literal_small_scope : gaps_scope 4 = true.
 Proof. exact gaps_small_scope. Qed.
 Print Assumptions C09_delays_literal_small_scope.
